@@ -471,6 +471,33 @@ def _shadowed_by_rewrap(m, cname, member):
     return None
 
 
+def _d19_related(m, old, lenders):
+    """Is ``old`` one of the classes finding D19 is about: a lender, a descendant of one, a class sharing the lent function, or a class
+    using a contracted module-level implementation that some class adopted in place?"""
+    w = m.world
+    if old not in w.classes:
+        return False
+    seen = []
+    todo = [old]
+    while todo:
+        x = todo.pop()
+        if x in seen or x not in w.classes:
+            continue
+        seen.append(x)
+        if x in lenders:
+            return True
+        for ms in w.cspec.get(x, {}).get("methods", ()):
+            if ms.get("kind") == "shared" and ms.get("contracted"):
+                return True
+            if ms.get("kind") == "alias":
+                todo.append(ms["of"].split(".")[0])
+        todo.extend(_ancestors(m, x))
+        co = w.cspec.get(x, {}).get("clone_of")
+        if co:
+            todo.append(co)
+    return False
+
+
 def _ancestors(m, name):
     if name not in m.world.classes:
         return []
@@ -626,14 +653,23 @@ def execute(scn, want):
                         }
                     )
             # ---------------- finding D19: a member borrowed from a class WITHOUT the metaclass by a contract class
-            if op == "class" and exc is None and name is not None and name in m.world.classes:
-                for ms_ in step["spec"].get("methods", ()):
+            d19_cls = name if (op == "class" and exc is None and name is not None and name in m.world.classes) else None
+            d19_spec = step.get("spec") or {}
+            if op == "clone" and exc is None and step["name"] in m.world.classes:
+                # the re-created class goes through the metaclass with the members of the original, re-exports included
+                d19_cls = step["name"]
+                d19_spec = m.world.cspec.get(step["of"]) or {}
+            if d19_cls is not None:
+                name_ = name
+                name = d19_cls
+                for ms_ in d19_spec.get("methods", ()):
                     if ms_.get("kind") == "alias":
                         src_ = m.world.classes.get(ms_["of"].split(".")[0])
                         never_seen = src_ is not None and (not isinstance(src_, icontract_meta()) or ms_["of"] in touched)
-                        if never_seen and (src_ not in m.world.classes[name].__mro__ or ms_.get("wrapped")):
+                        if never_seen and (src_ not in m.world.classes[name].__mro__ or ms_.get("wrapped") or op == "clone"):
                             # the lender is a class without the metaclass, or the member got its checker only after the lender's creation
                             borrowed_plain.add(ms_["of"].split(".")[0])
+                name = name_
             # ---------------- observe earlier definitions
             changed = []
             rebase = []
@@ -673,7 +709,7 @@ def execute(scn, want):
                             {
                                 "rule": "C17.R2" if op == "bad" else "C17.R1",
                                 "classifier": "%s:%s:lists:%s:%s%s"
-                                % (op, _relation(m, name, old), which if which.startswith("__inv") else which.split(".")[-1], "gained" if gained else "lost", D19 if (old in borrowed_plain or any(x_ in borrowed_plain for x_ in _ancestors(m, old))) else ""),
+                                % (op, _relation(m, name, old), which if which.startswith("__inv") else which.split(".")[-1], "gained" if gained else "lost", D19 if _d19_related(m, old, borrowed_plain) else ""),
                                 "detail": {"step": si, "defined": name, "observed": old, "list": which, "gained": gained, "lost": lost},
                             }
                         )
@@ -701,7 +737,7 @@ def execute(scn, want):
                         violations.append(
                             {
                                 "rule": "C17.R1",
-                                "classifier": "foreign-contract-decides-verdict:%s:%s%s" % (_relation(m, owner, old), "inv" if "/inv" in k else "contract", D19 if (old in borrowed_plain or any(x_ in borrowed_plain for x_ in _ancestors(m, old))) else ""),
+                                "classifier": "foreign-contract-decides-verdict:%s:%s%s" % (_relation(m, owner, old), "inv" if "/inv" in k else "contract", D19 if _d19_related(m, old, borrowed_plain) else ""),
                                 "detail": {"step": si, "observed": old, "probe": k, "verdict_with_all_true": exp, "verdict_now": now, "contract_of": owner},
                             }
                         )
@@ -722,7 +758,7 @@ def execute(scn, want):
                         {
                             "rule": rule,
                             "classifier": "%s:%s:%s:%s%s"
-                            % (op, rel, "ctor" if what == "new" else "member", "inv" if "/inv" in site else ("pre" if "/pre" in site else ("post" if "/post" in site else "ok")), D19 if (old in borrowed_plain or any(x_ in borrowed_plain for x_ in _ancestors(m, old))) else ""),
+                            % (op, rel, "ctor" if what == "new" else "member", "inv" if "/inv" in site else ("pre" if "/pre" in site else ("post" if "/post" in site else "ok")), D19 if _d19_related(m, old, borrowed_plain) else ""),
                             "detail": {"step": si, "defined": name, "observed": old, "probe": k, "verdict_when_defined": was, "verdict_now": now, "lists_changed": old in changed},
                         }
                     )
@@ -767,11 +803,12 @@ def execute(scn, want):
                     for role, e_, g_ in checks:
                         if e_ != g_:
                             sh = _shadowed_by_rewrap(m, name, ms["name"])
+                            d19_ = "" if sh else (D19 if _d19_related(m, name, borrowed_plain) else "")
                             violations.append(
                                 {
                                     "rule": "C18.R4",
                                     "classifier": "lists-differ-from-declaration:%s:%s:%s%s"
-                                    % (kind_, role, "missing" if e_ - g_ else "extra", ":inherited-member-copied-into-invariant-class-shadows-later-override" if sh else ""),
+                                    % (kind_, role, "missing" if e_ - g_ else "extra", ":inherited-member-copied-into-invariant-class-shadows-later-override" if sh else d19_),
                                     "detail": {"step": si, "class": name, "member": ms["name"], "role": role, "declared": sorted(e_), "introspected": sorted(g_), "copy_held_by": sh},
                                 }
                             )
